@@ -26,7 +26,7 @@ for pid in ids:
 m = dict(version=1,
          setup_cmd='python3 engine/selftest.py',
          hooks=dict(guard='LLBUILD_VERIF', enable='checks compile the repository sources with -DLLBUILD_VERIF=1 (clang++-14, LLVM IR); no guarded hook exists in the source at present', 
-                    baseline_off_cmd='cmake --build /repo/_build && ctest --test-dir /repo/_build -j8 --timeout 900', source_commits=[], add_only=True),
+                    baseline_off_cmd='cmake --build /repo/_build && for t in /repo/_build/bin/*Tests; do $t || exit 1; done   # the pinned suite = the 83 gtest cases of the 7 test binaries; LLBUILD_VERIF is never defined by the repository build', source_commits=[], add_only=True),
          engines=[dict(name='ir2c-cbmc', path='engine/', serves_properties=[c['property_id'] for c in checks],
                        kind_free_text='clang++-14 -> LLVM IR of the real translation units -> own IR-to-C translator (engine/ir2c.py) -> CBMC 6.11 bounded symbolic execution; native replay of counterexamples; differential translator validation on every run')],
          checks=checks, not_applicable=na,
